@@ -19,6 +19,30 @@ deriving DecidableEq, Repr
 inductive SvcErr | nf | cf | inv | int
 deriving DecidableEq, Repr
 
+/-- hash variants of pkg/crypt/algorithm/influxdb2 -/
+inductive Variant | sha256 | sha512
+deriving DecidableEq, Repr
+
+/-- structural damage done to an encoded digest `$<identifier>$<base64 key>` before decoding it -/
+inductive Mangle
+  | none          -- as produced by the hasher
+  | noLead        -- leading `$` removed
+  | lead          -- a character put before the leading `$`
+  | swap          -- identifier replaced by the other variant's
+  | unknownId     -- identifier replaced by `influxdb2-md5`
+  | emptyKey      -- key section emptied
+  | extra         -- `$zz` appended (a fourth section)
+  | cut           -- cut after the identifier (two sections only)
+deriving DecidableEq, Repr
+
+inductive PhcErr | fmt | ident | key     -- ErrEncodedHashInvalidFormat / InvalidIdentifier / KeyEncoding
+deriving DecidableEq, Repr
+
+inductive PhcRes
+  | matched (b : Bool)
+  | err (e : PhcErr)
+deriving DecidableEq, Repr
+
 inductive Op
   | cfg (strong hashed cfgB : Bool)
   | strong (b : Bool)
@@ -34,6 +58,9 @@ inductive Op
   | cs (name : String) (long : Bool)
   | xs (key : String)
   | req (hdr cookie : Option String)
+  /-- hash `pw` with variant `v`, damage the encoded digest, decode it with a decoder that knows
+      `decoders`, match `q` against it (authorization.AuthorizationHasher Hash / Match) -/
+  | phc (decoders : List Variant) (v : Variant) (m : Mangle) (pw q : String)
 deriving DecidableEq, Repr
 
 inductive Ans
@@ -42,6 +69,7 @@ inductive Ans
   | okKey (key : String) (uid : Nat)
   | err (e : SvcErr)
   | pw (r : PwRes)
+  | phc (r : PhcRes)
   | panic                                                      -- runtime error: integer divide by zero
   | http (status : Nat) (reached : Bool) (pset : Option Bool) (uid : Nat)
       -- reached: the wrapped handler ran; pset: Authorizer.PermissionSet() succeeded there
